@@ -1139,6 +1139,94 @@ class FailAtUnit(FunctionUnit):
 
 
 
+class DelayWrapperUnit(FunctionUnit):
+    """move_on_at / move_on_after / fail_after (anyio/_core/_tasks.py): the deadline handed on is the one asked for --
+    `deadline` itself, `now + delay`, or +inf for None -- and the shield flag is forwarded unchanged; fail_after
+    delegates to fail_at (verified above) and yields exactly the scope fail_at gives it."""
+
+    props = ("C06",)
+    modpath = TASKS
+    trusted = ("A-real",)
+    which = None
+
+    def contract_for(self, qualname, ctx):
+        return None
+
+    def __init__(self):
+        super().__init__()
+        self.funcname = self.which
+        self.name = self.qualname = self.which
+        self.functions = ((self.modpath, self.which),)
+        unit = self
+
+        def create_cancel_scope(ip, deadline=float("inf"), shield=False):
+            unit.created.append((deadline, shield))
+            return unit.marker
+
+        def fail_at(ip, deadline, shield=False, reason=None):
+            unit.failat.append((deadline, shield, reason))
+            return unit.cm
+
+        self.marker = Sym(z3.Int("the_new_scope"), CS)
+
+        class CM:
+            pass
+
+        self.cm = CM()
+        self.globals = {
+            "get_async_backend": Builtin("get_async_backend", lambda ip: NS("backend", {"current_time": Builtin("current_time", loop_time), "create_cancel_scope": Builtin("create_cancel_scope", create_cancel_scope)})),
+            "fail_at": Builtin("fail_at", fail_at),
+        }
+
+    def model_getattr(self, ip, obj, attr):
+        if obj is self.cm and attr == "__enter__":
+            return Builtin("fail_at.__enter__", lambda ip: self.marker)
+        if obj is self.cm and attr == "__exit__":
+            return Builtin("fail_at.__exit__", lambda ip, *a: False)
+        return NotImplemented
+
+    def make_args(self, ip):
+        self.created, self.failat, self.yielded = [], [], []
+        st = ip.st
+        st.assume(z3.And(NEG_INF < 0, 0 < INF, now(H(st)) > NEG_INF, now(H(st)) < INF))
+        self.none = ip.ctx.decide(2, "argument-is-None") == 1
+        self.arg = None if self.none else Sym(z3.Real("delay_or_deadline"), REAL)
+        if self.arg is not None:
+            st.assume(z3.And(self.arg.t > NEG_INF, self.arg.t < INF))
+        self.shield = Sym(z3.Bool("shield_arg"), BOOL)
+        self.reason = Sym(z3.Int("reason_arg"), STR)
+        kw = {"shield": self.shield}
+        if self.which == "fail_after":
+            kw["reason"] = self.reason
+        return [self.arg], kw
+
+    def do_yield(self, ip, v):
+        self.yielded.append(v)
+        return None
+
+    def on_exit(self, ip, pre, exc, ret):
+        nm = self.which
+        want = INF if self.none else (self.arg.t if nm == "move_on_at" else now(pre) + self.arg.t)
+        ip.ctx.oblige(f"{nm}/post:never_raises_by_itself", z3.BoolVal(exc is None), "post")
+        if nm == "fail_after":
+            ok = len(self.failat) == 1 and not self.created
+            ip.ctx.oblige(f"{nm}/post:delegates_once_to_fail_at_and_yields_its_scope", z3.BoolVal(ok and self.yielded == [self.marker]), "post")
+            if ok:
+                d, sh, rs = self.failat[0]
+                ip.ctx.oblige(f"{nm}/post:the_deadline_is_now_plus_delay_or_infinite_and_shield_and_reason_are_forwarded", z3.And(ip.term(d, REAL) == want, ip.term(sh, BOOL) == self.shield.t, z3.BoolVal(rs is self.reason)), "post")
+            return
+        ok = len(self.created) == 1 and not self.failat
+        ip.ctx.oblige(f"{nm}/post:creates_exactly_one_scope_and_returns_it", z3.BoolVal(ok and ret is self.marker), "post")
+        if ok:
+            d, sh = self.created[0]
+            ip.ctx.oblige(f"{nm}/post:the_deadline_is_the_one_asked_for_or_infinite_and_shield_is_forwarded", z3.And(ip.term(d, REAL) == want, ip.term(sh, BOOL) == self.shield.t), "post")
+
+
+def delay_units():
+    return [type(f"DelayWrapper_{w}", (DelayWrapperUnit,), {"which": w}) for w in ("move_on_at", "move_on_after", "fail_after")]
+
+
+
 def ed_loop_inv(ip, env):
     u = ip.ctx.unit
     h = H(ip.st)
@@ -1230,7 +1318,7 @@ def timeout_units():
     return out
 
 
-UNITS = [InitUnit, EffUnit, VisibleUnit, EnterUnit, ExitUnit, CancelUnit, *timeout_units(), FailAtUnit, EffectiveDeadlineUnit, DeadlineSetterUnit, ShieldSetterUnit, getter_unit("cancel_called", cc, BOOL), getter_unit("cancelled_caught", caught, BOOL), getter_unit("shield", shield, BOOL)]
+UNITS = [InitUnit, EffUnit, VisibleUnit, EnterUnit, ExitUnit, CancelUnit, *timeout_units(), FailAtUnit, *delay_units(), EffectiveDeadlineUnit, DeadlineSetterUnit, ShieldSetterUnit, getter_unit("cancel_called", cc, BOOL), getter_unit("cancelled_caught", caught, BOOL), getter_unit("shield", shield, BOOL)]
 
 # the delivery walk (C03 / C05 / C04(b)): proves the DELIVER / RESTART contracts the units above assume
 from specs import c03_delivery as _delivery  # noqa: E402
